@@ -232,7 +232,10 @@ theorem hstep_doLocalWrite (fuel : Nat) (ih : HMachine H fuel) :
   obtain ⟨_, _, _, _, _, _, i7, i8, _⟩ := ih
   simp only [doLocalWrite]
   split
-  · exact i8 _ _ h
+  · apply i8
+    rcases discDone_cases w which with ⟨e, _⟩ | ⟨e, _⟩ <;> rw [e]
+    · exact h
+    · exact HQ.hd hc _ h
   · split
     · rename_i w' heq; exact (h.ioWrite heq).eq rfl rfl
     · rename_i w' n heq; exact i7 _ _ _ (h.ioWrite heq)
